@@ -232,6 +232,20 @@ func init() {
 		},
 	})
 	register(&PropSpec{
+		ID: "C18",
+		Explanation: "Decided: R-TYPEID - the handler's parameter and result types (values of reflect.Type.In/Out) influence acceptance only through identity comparison with a " +
+			"reflect.Type or through Kind(), never through their name/String or Implements/AssignableTo/ConvertibleTo; R-REFLECT - Handler.Type() is only reached after " +
+			"Kind() == Func was established (locally, by a callee's accepting return, or at every call site); R-DOM - the reflective handler call is dominated by " +
+			"len(arguments) == NumIn and is not in a loop; R-ERRPROV - every error returned by Call is a FunctionCallError constructed there, flagged function-reported exactly " +
+			"when the wrapped error derives from the handler's results. NOT decided: the full acceptance predicate over all Go signatures (result-count arithmetic), " +
+			"argument type checking at call time.",
+		Rules: []func(*Ctx){
+			func(c *Ctx) { c.ruleTypeID("R-TYPEID") },
+			func(c *Ctx) { c.ruleHandlerKind("R-REFLECT"); c.R.Floor("R-REFLECT", 4) },
+			func(c *Ctx) { c.ruleFunctionCall("R-CALL") },
+		},
+	})
+	register(&PropSpec{
 		ID:       "C19",
 		NeedsGen: true,
 		Explanation: "Decided for module `codegen`: R-INDEX - every constant index into os.Args beyond the schema file is dominated by a length test (no panic without the ignore " +
